@@ -179,6 +179,15 @@ def classify_bool(e):
 class Routine:
     def __init__(self, prog, body, depth=0, mapping=None):
         self.prog = prog
+        if not getattr(body, "_pred_threaded", False):
+            # private boolean predicates are read in place and their constant results threaded to the branch they select
+            from .facts import inline_calls, thread_constant_flags
+            _pred = lambda cb: (not cb.is_closure) and cb.key not in prog.exported and (cb.raw.get("output") == "bool") and \
+                len(cb.blocks) <= 20 and not cb.raw.get("unsafe_fn")
+            nb = thread_constant_flags(prog, inline_calls(prog, body, _pred))
+            if nb is not body:
+                nb._pred_threaded = True
+                body = nb
         self.body = body
         self.exits = []
         self.success = None
@@ -865,7 +874,13 @@ def rule_r6(ctx, prog, rule="R6", only=None):
         body = ms[0]
         tabled_bodies.add(body.key)
         n_routines += 1
-        r = Routine(prog, body)
+        # private boolean predicates (`is_valid_quantile(q)`, `is_empty_range(min, max)`) are read in place and their constant
+        # results threaded to the branch they select, so that `if !pred(x) { return Err }` is the guard sequence the predicate spells
+        from .facts import inline_calls, thread_constant_flags
+        _pred = lambda cb: (not cb.is_closure) and cb.key not in prog.exported and (cb.raw.get("output") == "bool") and len(cb.blocks) <= 20 \
+            and not cb.raw.get("unsafe_fn")
+        body_g = thread_constant_flags(prog, inline_calls(prog, body, _pred))
+        r = Routine(prog, body_g)
         err_ty = last_generic(body.raw.get("output", ""))
         exits = r.exits
         seq = [x for x in exits if x.kind in ("err", "delegate")]
@@ -1143,6 +1158,38 @@ def rule_r6(ctx, prog, rule="R6", only=None):
                "a panic (%s) is decided before the error exit(s) %s: the documented error surfaces as a panic for some inputs"
                % ("; ".join(cls_text(x) for x in bad_panics), sorted(set(matched_positions.values()))),
                what="panic precedes documented error")
+        # no success value may be produced on a path that has not passed every documented error decision: each definition of the
+        # return place that is not an error must be dominated by every matched decision of this body (decisions evaluated per
+        # element inside a loop are exempt: zero iterations legitimately pass none of them)
+        gb = r.body
+        bypass = []
+        n_succ = 0
+        for bb in gb.live_blocks():
+            blk = gb.blocks[bb]
+            ds_ = [(bb, si) for si, s in enumerate(blk["stmts"]) if s["k"] == "assign" and s["dst"]["l"] == 0 and not s["dst"]["p"]]
+            t_ = blk["term"]
+            if t_["k"] == "call" and t_["dst"]["l"] == 0 and not t_["dst"]["p"]:
+                ds_.append((bb, "term"))
+            for d in ds_:
+                k_, _p = r.ret_kind(d)
+                if k_ not in ("ok", "call", "other") or not gb.can_reach_return(bb):
+                    continue
+                n_succ += 1
+                for j, nm_ in sorted(matched_positions.items()):
+                    x = exits[j]
+                    if x.body is not gb or x.kind != "err" or x.bb == bb or gb.term(x.bb)["k"] != "switch":
+                        continue
+                    if any(x.bb in gb.reachable_from(s_) for s_ in gb.succ(x.bb)):
+                        continue          # decided per element of a loop
+                    if not gb.dominates(x.bb, bb):
+                        bypass.append((nm_, d, x))
+        okb = not bypass
+        ctx.ob(rule, "%s/no-success-before-error-decisions" % fk + ("" if okb else "/found:" + ";".join(sorted(set(nm_ for nm_, _, _ in bypass)))),
+               okb, gb.where(*bypass[0][1]) if bypass else body.where(),
+               "%d success definition(s) of the return value, each dominated by every documented error decision" % n_succ if okb else
+               "a success value is returned on a path that bypasses the documented %s decision (%s): inputs on which the property "
+               "demands that error receive Ok" % (bypass[0][0], cls_text(bypass[0][2])),
+               what="success bypasses documented error decision")
     # untabled fallible routines: listed, not alarmed
     for b in (prog.bodies.values() if only is None else []):
         if b.is_closure or b.key in tabled_bodies:
